@@ -404,25 +404,70 @@ def parse_dispatch(src):
     if not mm:
         raise ParseError("`match self.backend` not found in the dispatching stripe_into")
     arms_txt = mm.group(1)
-    table = {}
-    default = None
-    for am in re.finditer(r"(Dispatch::(\w+)|_)\s*=>\s*(<\s*(\w+)\s+as\s+Stripe|(\w+)\s*::\s*stripe_into)", arms_txt):
-        target = am.group(4) or am.group(5)
-        if target not in ("Generic", "Avx2"):
-            raise ParseError("dispatch arm targets unknown kernel %s" % target)
-        if am.group(1) == "_":
-            default = target
+    # every arm, with the cfg attribute that guards it (x86 / arm / none)
+    found = []
+    for am in re.finditer(r"((?:#\s*\[\s*cfg\s*\((?:[^\[\]]*)\)\s*\]\s*)?)(Dispatch::(\w+)|_)\s*=>\s*(<\s*(\w+)\s+as\s+Stripe|(\w+)\s*::\s*stripe_into)", arms_txt):
+        cfg = am.group(1)
+        if not cfg.strip():
+            where = ("x86", "arm")
+        elif "x86" in cfg and "arm" not in cfg and "aarch64" not in cfg:
+            where = ("x86",)
+        elif ("arm" in cfg or "aarch64" in cfg) and "x86" not in cfg:
+            where = ("arm",)
         else:
-            table[am.group(2)] = target
+            raise ParseError("dispatch arm with an unrecognised cfg attribute %r" % cfg.strip())
+        target = am.group(5) or am.group(6)
+        found.append((where, am.group(3) if am.group(2) != "_" else None, target))
     out = {}
-    for arm in ("Generic", "Sse2", "Avx2"):
-        if arm in table:
-            out[arm] = table[arm]
-        elif default is not None:
-            out[arm] = default
-        else:
-            raise ParseError("dispatch arm %s has no kernel" % arm)
+    for target_arch, variants in (("x86", ("Generic", "Sse2", "Avx2")), ("arm", ("Generic", "Neon"))):
+        table, default = {}, None
+        for where, variant, target in found:
+            if target_arch not in where:
+                continue
+            if target not in ("Generic", "Avx2"):
+                raise ParseError("dispatch arm targets unknown kernel %s" % target)
+            if target == "Avx2" and target_arch == "arm":
+                raise ParseError("the AVX2 kernel is named by an arm that exists on arm targets")
+            if variant is None:
+                default = target
+            elif variant in variants:
+                table[variant] = target
+            else:
+                raise ParseError("dispatch arm %s does not exist on %s targets" % (variant, target_arch))
+        res = {}
+        for arm in variants:
+            if arm in table:
+                res[arm] = table[arm]
+            elif default is not None:
+                res[arm] = default
+            else:
+                raise ParseError("dispatch arm %s has no kernel on %s" % (arm, target_arch))
+        out[target_arch] = res
     return out
+
+
+LANES_IMPL_RE = re.compile(r"((?:#\s*\[\s*cfg\s*\((?:[^\[\]]*)\)\s*\]\s*))type\s+Lanes\s*=\s*<\s*(\w+)\s+as\s+Backend\s*>\s*::\s*Lanes\s*;")
+
+
+def parse_lanes(dispatch_src, platform_dir):
+    """<Dispatch as Backend>::Lanes on x86 and on arm targets, resolved through the platform files"""
+    m = re.search(r"impl\s+Backend\s+for\s+Dispatch\s*\{(.*?)\n\}", dispatch_src, re.S)
+    if not m:
+        raise ParseError("impl Backend for Dispatch not found")
+    res = {}
+    for lm in LANES_IMPL_RE.finditer(m.group(1)):
+        cfg, backend = lm.group(1), lm.group(2)
+        arch = "x86" if "x86" in cfg and "not" not in cfg else ("arm" if ("arm" in cfg or "aarch64" in cfg) and "not" not in cfg else None)
+        if arch is None:
+            continue
+        f = os.path.join(platform_dir, backend.lower() + ".rs")
+        pm = re.search(r"impl\s+Backend\s+for\s+%s\s*\{[^}]*?type\s+Lanes\s*=\s*U(\d+)\s*;" % backend, _strip_comments(open(f).read()), re.S)
+        if not pm:
+            raise ParseError("Lanes of backend %s not found in %s" % (backend, f))
+        res[arch] = int(pm.group(1))
+    if "x86" not in res or "arm" not in res:
+        raise ParseError("Lanes of the dispatcher on x86 / arm not found")
+    return res
 
 
 def render(arms, blk, disp):
@@ -483,8 +528,19 @@ def render(arms, blk, disp):
     L.append("Definition disp_stripe (a : arm) : kernel :=")
     L.append("  match a with")
     for arm, c in (("Generic", "AGeneric"), ("Sse2", "ASse2"), ("Avx2", "AAvx2")):
-        L.append("  | %s => K%s" % (c, disp[arm]))
+        L.append("  | %s => K%s" % (c, disp["x86"][arm]))
     L.append("  end.")
+    L.append("")
+    L.append("(* the same match compiled for arm / aarch64 (Dispatch = Generic | Neon) *)")
+    L.append("Definition disp_stripe_arm (a : arm_neon) : kernel :=")
+    L.append("  match a with")
+    for arm, c in (("Generic", "NGeneric"), ("Neon", "NNeon")):
+        L.append("  | %s => K%s" % (c, disp["arm"][arm]))
+    L.append("  end.")
+    L.append("")
+    L.append("(* <Dispatch as Backend>::Lanes = the column count of the dispatching pipeline *)")
+    L.append("Definition disp_lanes_x86 : nat := %d." % disp["lanes"]["x86"])
+    L.append("Definition disp_lanes_arm : nat := %d." % disp["lanes"]["arm"])
     L.append("")
     return "\n".join(L)
 
@@ -499,7 +555,9 @@ def translate(write=True):
         blk["cond_coq"] = cond_to_coq(blk["cond"])
         blk["steps"] = parse_steps(body2)
         blk["tail"], blk["fill"] = parse_tail_fill(body2)
-        disp = parse_dispatch(_strip_comments(open(DISPATCH).read()))
+        dsrc = _strip_comments(open(DISPATCH).read())
+        disp = parse_dispatch(dsrc)
+        disp["lanes"] = parse_lanes(dsrc, os.path.join(REPO, "lightmotif/src/pli/platform"))
         text = render(arms, blk, disp)
     except (ParseError, OSError, ValueError) as e:
         errors.append("stripe_net: cannot parse the source: %s" % e)
@@ -519,7 +577,7 @@ def translate(write=True):
     notes.append("stripe_net: %d loads, %d unpack ops, %d stores, loop condition %s, steps %s, dispatch %s%s" % (
         len(blk["loads"]), len(blk["unpacks"]), len(blk["stores"]), blk["cond_coq"],
         "/".join(str(blk["steps"][k]) for k in ("out", "src", "i")),
-        ",".join("%s->%s" % kv for kv in sorted(disp.items())), " (regenerated)" if changed else ""))
+        ",".join("%s->%s" % kv for kv in sorted(disp["x86"].items())) + " arm:" + ",".join("%s->%s" % kv for kv in sorted(disp["arm"].items())) + " lanes %d/%d" % (disp["lanes"]["x86"], disp["lanes"]["arm"]), " (regenerated)" if changed else ""))
     return dict(ok=True, notes=notes, errors=errors)
 
 
